@@ -107,17 +107,19 @@ def check_line(case, ev):
     else:
         from netconan.anonymize_files import FileAnonymizer
 
-        fa, exc = guarded(lambda: FileAnonymizer(anon_pwd=False, anon_ip=False, salt=salt, as_numbers=list(nums)))
+        # "reserved": user reserved words (-r) that are words of this very line - they govern the word and
+        # secret stages only, the AS-number replacement stays a function of salt and number
+        fa, exc = guarded(lambda: FileAnonymizer(anon_pwd=False, anon_ip=False, salt=salt, as_numbers=list(nums), reserved_words=list(case["reserved"]) if case.get("reserved") else None))
         if exc is not None:
             return core.exc_finding(exc, case, "ctor/")
-        out, exc = guarded(core.run_io, fa, line + "\n")
+        out, exc = guarded(core.run_io, fa, line + "\n", bool(case.get("nonl")))
         if exc is None:
             out = out[:-1] if out.endswith("\n") else out
     if exc is not None:
         return core.exc_finding(exc, case, "anonymize/")
     si, so = digit_runs(line), digit_runs(out)
     nt = False
-    cls = ["via-" + via]
+    cls = ["via-" + via] + (["with-reserved-words-of-the-line"] if case.get("reserved") else []) + (["unterminated-last-line"] if case.get("nonl") and via == "io" else [])
     prev_listed = False
     for k, (isnum, t) in enumerate(si):
         if isnum:
@@ -246,9 +248,15 @@ def _case(draw):
         segs[-1] = draw(st.sampled_from(["", "", " ", ";"]))
     via = draw(st.sampled_from(["direct", "direct", "io", "io-pwd", "direct", "io", "cli-n", "cli-an", "cli-un"]))
     line = "".join(segs)
+    if draw(st.integers(0, 9)) == 0:
+        # the whole line is one listed number (at most with a blank or a separator next to it)
+        line = draw(st.sampled_from(["", "", " ", "\t"])) + draw(st.sampled_from(nums)) + draw(st.sampled_from(["", "", "", " ", ",", ";"]))
     if via == "io-pwd":
         line = line + draw(st.sampled_from([" password Zq9xWv", "\tkey 7 0822455D0A16", "  secret 5 $1$abcd$0123456789012345678901", " ", ""]))
-    return {"nums": nums, "line": line, "salt": draw(st.one_of(st.text(max_size=6), st.sampled_from(["", "s", "TESTSALT"]))), "via": via}
+    reserved = []
+    if via == "io" and line.split() and draw(st.booleans()):
+        reserved = draw(st.lists(st.sampled_from(line.split()), min_size=1, max_size=2, unique=True))
+    return {"reserved": reserved, "nums": nums, "line": line, "salt": draw(st.one_of(st.text(max_size=6), st.sampled_from(["", "s", "TESTSALT"]))), "via": via, "nonl": draw(st.integers(0, 3)) == 0}
 
 
 def t_lines(shard, nshards, seed, ev, known, n=1000):
